@@ -659,6 +659,67 @@ _ed('sort_inplace', lambda pt, a: a['self'].sort_residues(inplace=True))
 _ed('condense_static_inplace', lambda pt, a: a['self'].condense_static_mods(inplace=True))
 _ed('set_sequence', lambda pt, a: setattr(a['self'], 'sequence', a['self'].sequence[::-1]))
 
+# ------------------------------------------------------------------------------------------ the less travelled exports
+# (helpers the package exports that take caller-owned lists / dictionaries; found by diffing the catalogue against
+#  dir(peptacular))
+
+op('get_losses', lambda S, W: ok({'sequence': V(S.pick(['PEPTSIDEK', 'SSTTEEDD', 'KRKR', 'A'])), 'losses': H(W, S, 'losses'),
+                                  'max_losses': V(S.pick([1, 2, 3]))}),
+   lambda pt, a: pt.get_losses(a['sequence'], a['losses'], a['max_losses']), weight=0.5)
+op('merge_dicts', lambda S, W: ok({'d1': H(W, S, 'comp'), 'd2': H(W, S, 'comp')}),
+   lambda pt, a: pt.merge_dicts(a['d1'], a['d2']), weight=0.5)
+op('are_mods_equal', lambda S, W: ok({'mods1': H(W, S, 'modobjs'), 'mods2': H(W, S, 'modobjs')}),
+   lambda pt, a: pt.are_mods_equal(a['mods1'], a['mods2']), weight=0.5)
+op('are_intervals_equal', lambda S, W: ok({'i1': H(W, S, 'ivobjs'), 'i2': H(W, S, 'ivobjs')}),
+   lambda pt, a: pt.are_intervals_equal(a['i1'], a['i2']), weight=0.5)
+op('fix_interval_input', lambda S, W: ok({'interval': H(W, S, 'ivone')}),
+   lambda pt, a: pt.fix_interval_input(a['interval']), weight=0.4)
+op('remove_empty_list_of_mods', lambda S, W: ok({'mods': H(W, S, 'modobjs')}),
+   lambda pt, a: pt.remove_empty_list_of_mods(a['mods']), weight=0.4)
+op('remove_empty_list_of_list_of_mods', lambda S, W: ok({'mods': H(W, S, 'modgroups')}),
+   lambda pt, a: pt.remove_empty_list_of_list_of_mods(a['mods']), weight=0.4)
+op('convert_to_mod', lambda S, W: ok({'mod': H(W, S, 'modone')}), lambda pt, a: pt.convert_to_mod(a['mod']), weight=0.3)
+op('parse', lambda S, W: ok({'sequence': H(W, S, 'str')}), lambda pt, a: pt.parse(a['sequence']), weight=0.7)
+op('sequence_to_annotation', lambda S, W: ok({'sequence': H(W, S, 'str')}),
+   lambda pt, a: pt.sequence_to_annotation(a['sequence']), weight=0.7)
+op('parse_chem_formula', lambda S, W: ok({'formula': H(W, S, 'compstr')}),
+   lambda pt, a: pt.parse_chem_formula(a['formula']), weight=0.4)
+op('parse_glycan_formula', lambda S, W: ok({'formula': H(W, S, 'gcompstr')}),
+   lambda pt, a: pt.parse_glycan_formula(a['formula']), weight=0.4)
+
+
+def _c_has_star(pt, a):
+    x = a['self']
+    return tuple(getattr(x, n)() for n in ('has_mods', 'has_charge', 'has_charge_adducts', 'has_cterm_mods',
+                                           'has_internal_mods', 'has_intervals', 'has_isotope_mods',
+                                           'has_labile_mods', 'has_nterm_mods', 'has_sequence', 'has_static_mods',
+                                           'has_unknown_mods') if hasattr(x, n))
+
+
+_m('has_star', _c_has_star, weight=1.5)
+_m('has_internal_mods_at_index', lambda pt, a: a['self'].has_internal_mods_at_index(a['index']),
+   gen=lambda S, W: (lambda s: ok({'self': s, 'index': V(S.randint(0, max(0, seqlen(W, s) - 1)))}) if s else None)(
+       H(W, S, 'ann')), weight=0.5)
+
+
+def _g_ed_pop_field(S, W):
+    return ok({'self': H(W, S, 'ann'), 'which': V(S.pick(['pop_charge', 'pop_charge_adducts', 'pop_cterm_mods',
+                                                          'pop_internal_mods', 'pop_intervals', 'pop_isotope_mods',
+                                                          'pop_static_mods', 'pop_unknown_mods', 'pop_mods']))})
+
+
+_ed('pop_field', lambda pt, a: getattr(a['self'], a['which'])(), gen=_g_ed_pop_field, weight=0.6)
+_ed('add_intervals', lambda pt, a: a['self'].add_intervals(a['intervals'], a['append']),
+    gen=lambda S, W: ok({'self': H(W, S, 'ann'), 'intervals': H(W, S, 'ivlist'), 'append': V(S.coin(0.5))}))
+_ed('add_internal_mods', lambda pt, a: a['self'].add_internal_mods(a['mods'], a['append']),
+    gen=lambda S, W: ok({'self': H(W, S, 'ann'), 'mods': H(W, S, 'intdict'), 'append': V(S.coin(0.6))}))
+_ed('add_mod_dict', lambda pt, a: a['self'].add_mod_dict(a['mods'], a['append']),
+    gen=lambda S, W: ok({'self': H(W, S, 'ann'), 'mods': H(W, S, 'moddict'), 'append': V(S.coin(0.6))}))
+_ed('add_charge_adducts', lambda pt, a: a['self'].add_charge_adducts(a['mods'], a['append']),
+    gen=lambda S, W: ok({'self': H(W, S, 'ann'), 'mods': V(S.pick(['+Na+', '+2Na+,+H+', '+K+'])),
+                         'append': V(S.coin(0.5))}))
+_ed('clear_empty_mods', lambda pt, a: a['self'].clear_empty_mods())
+
 
 def pick_op(S, W, names=None):
     """Draw an op (weighted) whose preconditions hold; returns (name, args) or None."""
